@@ -337,4 +337,184 @@ theorem step_progress {delay lim : Nat} {L : Bool → List Int} {B : Int}
 
 end
 
+/-! ### the weight of the queued events -/
+
+def isTR (e : SimEvent) : Bool := e.event == .tunnelRecv
+def isNR (e : SimEvent) : Bool := e.event == .normalRecv
+
+/-- iterations the queued events still need if all of them are served: a NormalSent is followed
+    by its TunnelSent, TunnelRecv and NormalRecv -/
+def wgt (sq : SimQueue) : Nat := 4 * tcount isNS sq + 3 * tcount isTS sq + 2 * tcount isTR sq + tcount isNR sq
+
+/-- queued events that are normal packets in the sense of the loop's third stop test -/
+def act (sq : SimQueue) : Nat := tcount isNS sq + tcount isTS sq + tcount isTR sq
+
+theorem tcount_le_len (P : SimEvent → Bool) (sq : SimQueue) : tcount P sq ≤ sq.len := by
+  have h : ∀ l : List SimEvent, l.countP P ≤ l.length := fun l => List.countP_le_length
+  unfold tcount qcount SimQueue.len EventQueue.len Heap.len
+  have a1 := h sq.client.base.data
+  have a2 := h sq.client.blocking.data
+  have a3 := h sq.client.bypassable.data
+  have a4 := h sq.client.internal.data
+  have a5 := h sq.server.base.data
+  have a6 := h sq.server.blocking.data
+  have a7 := h sq.server.bypassable.data
+  have a8 := h sq.server.internal.data
+  omega
+
+theorem tcount_zero_all {P : SimEvent → Bool} {sq : SimQueue} (h : tcount P sq = 0) :
+    ∀ c qi, ∀ e ∈ ((sq.side c).heap qi).data, P e = false := by
+  unfold tcount qcount at h
+  intro c qi e he
+  have hz : ((sq.side c).heap qi).data.countP P = 0 := by
+    cases c <;> cases qi <;> simp only [SimQueue.side, EventQueue.heap, if_true, Bool.false_eq_true, if_false] <;> omega
+  have := List.countP_eq_zero.1 hz e he
+  simpa using this
+
+/-- the loop's third stop test on a queue of plain packets: "no normal packets" means exactly
+    that no NormalSent, TunnelSent or TunnelRecv is queued -/
+theorem noNormal_iff_act {sq : SimQueue} (hw : sq.WF) (hpk : tcount notPkt sq = 0) :
+    sq.noNormalPackets = true ↔ act sq = 0 := by
+  constructor
+  · intro h
+    have hno := noNormal_no_packets hw h
+    have z1 : tcount isNS sq = 0 := tcount_zero_of_all (fun c qi e he => (hno c qi e he).1)
+    have z2 : tcount isTS sq = 0 := tcount_zero_of_all (fun c qi e he => (hno c qi e he).2.1)
+    have z3 : tcount isTR sq = 0 := tcount_zero_of_all (fun c qi e he => (hno c qi e he).2.2)
+    unfold act; omega
+  · intro h
+    unfold act at h
+    have z1 := tcount_zero_all (show tcount isNS sq = 0 by omega)
+    have z2 := tcount_zero_all (show tcount isTS sq = 0 by omega)
+    have z3 := tcount_zero_all (show tcount isTR sq = 0 by omega)
+    have zp := tcount_zero_all hpk
+    have key : ∀ (c : Bool), ((sq.side c).WF c) → (sq.side c).noNormalPackets = true := by
+      intro c hq
+      have emp : ∀ (l : List SimEvent), (∀ e ∈ l, False) → l = [] := by
+        intro l hl
+        cases l with
+        | nil => rfl
+        | cons a r => exact absurd (hl a (by simp)) id
+      have hb : (sq.side c).base.data = [] := by
+        apply emp
+        intro e he
+        have h1 := z1 c .base e he
+        have h2 := List.countP_eq_zero.1 hq.base e he
+        simp [h1] at h2
+      have hbl : (sq.side c).blocking.data = [] := by
+        apply emp
+        intro e he
+        have h1 := z2 c .blocking e he
+        have h2 := List.countP_eq_zero.1 hq.blocking e he
+        simp [h1] at h2
+      have hby : (sq.side c).bypassable.data = [] := by
+        apply emp
+        intro e he
+        have h1 := z2 c .bypassable e he
+        have h2 := List.countP_eq_zero.1 hq.bypassable e he
+        simp [h1] at h2
+      unfold EventQueue.noNormalPackets Heap.isEmpty Heap.toList
+      rw [hb, hbl, hby]
+      simp only [List.isEmpty_nil, List.all_nil, Bool.and_true, Bool.true_and, List.all_eq_true,
+        Bool.and_eq_true, bne_iff_ne, ne_eq, Bool.not_eq_true']
+      intro e he
+      have h3 := z3 c .internal e he
+      have h4 := zp c .internal e he
+      simp only [isTR, beq_eq_false_iff_ne, ne_eq] at h3
+      simp only [notPkt, pktOK, Bool.not_eq_false', Bool.and_eq_true, Bool.not_eq_true'] at h4
+      exact ⟨h3, h4.1.1.1⟩
+    unfold SimQueue.noNormalPackets
+    have kc := key true hw.client
+    have ks := key false hw.server
+    simp only [SimQueue.side, if_true, Bool.false_eq_true, if_false] at kc ks
+    rw [kc, ks]; rfl
+
+section
+variable {σ : Type} (ρ : Oracle σ)
+
+/-- every iteration of an exact run lowers the weight by exactly one -/
+theorem step_wgt {delay lim : Nat} {L : Bool → List Int} {B : Int}
+    (hstat : ∀ c t, t ∈ L c →
+      (L c).countP (fun x => decide (x ≤ t) && inWin Gen.SIM_BOTTLENECK_WINDOW_NS t x) ≤ lim)
+    {st st' : St σ} {r : StepRec} (hx : XInv delay lim L B st) (h : step ρ st = .ok (some (r, st'))) :
+    wgt st'.sq + 1 = wgt st.sq := by
+  obtain ⟨_, hok, hc⟩ := step_exact ρ hstat hx h
+  have c1 := hc isNS
+  have c2 := hc isTS
+  have c3 := hc isTR
+  have c4 := hc isNR
+  unfold wgt
+  rcases pktOK_event hok with hev | hev | hev | hev <;>
+    simp [succL, hev, isNS, isTS, isTR, isNR, b2n] at c1 c2 c3 c4 <;> omega
+
+/-- the stop tests when neither cap binds -/
+theorem stopCheck_nocaps (a : Args) (st : St σ) (iters cnt : Nat) (hcont : a.continueAfterAllNormal = false)
+    (h1 : a.maxTraceLength = 0 ∨ cnt < a.maxTraceLength)
+    (h2 : a.maxSimIterations = 0 ∨ iters + 1 < a.maxSimIterations) :
+    stopCheck a st iters cnt = if st.sq.noNormalPackets then some .noNormal else none := by
+  unfold stopCheck
+  have c1 : (decide (a.maxTraceLength > 0) && decide (cnt ≥ a.maxTraceLength)) = false := by
+    rcases h1 with h | h <;> simp <;> omega
+  have c2 : (decide (a.maxSimIterations > 0) && decide (iters + 1 ≥ a.maxSimIterations)) = false := by
+    rcases h2 with h | h <;> simp <;> omega
+  simp [c1, c2, hcont]
+
+/-- **Progress of the main loop.**  From a state of an exact run in which a normal packet is
+    still queued, with fuel and caps that leave room for the weight of the queue, the loop stops
+    because all normal packets were processed; the number of iterations is the weight it
+    consumed. -/
+theorem loop_progress {delay lim : Nat} {L : Bool → List Int} {B : Int}
+    (hstat : ∀ c t, t ∈ L c →
+      (L c).countP (fun x => decide (x ≤ t) && inWin Gen.SIM_BOTTLENECK_WINDOW_NS t x) ≤ lim)
+    (a : Args) (hcont : a.continueAfterAllNormal = false) :
+    ∀ (fuel : Nat) (st : St σ) (iters cnt : Nat), PInv delay lim L B st → 0 < act st.sq →
+      wgt st.sq ≤ fuel + 1 →
+      (a.maxSimIterations = 0 ∨ iters + wgt st.sq ≤ a.maxSimIterations) →
+      (a.maxTraceLength = 0 ∨ cnt + wgt st.sq ≤ a.maxTraceLength) →
+      (loop ρ a fuel st iters cnt).stop = .noNormal ∧
+      ∃ stf, (loop ρ a fuel st iters cnt).final = some stf ∧ act stf.sq = 0 ∧
+        (loop ρ a fuel st iters cnt).stream.length + wgt stf.sq = wgt st.sq := by
+  intro fuel
+  induction fuel with
+  | zero =>
+    intro st iters cnt _ hact hfuel _ _
+    exfalso
+    unfold act at hact; unfold wgt at hfuel; omega
+  | succ n ih =>
+    intro st iters cnt hp hact hfuel hit hlen
+    have hw2 : 2 ≤ wgt st.sq := by unfold act at hact; unfold wgt; omega
+    have hl : st.sq.len ≠ 0 := by
+      have h1 := tcount_le_len isNS st.sq
+      have h2 := tcount_le_len isTS st.sq
+      have h3 := tcount_le_len isTR st.sq
+      unfold act at hact; omega
+    obtain ⟨r, st', hs, hp'⟩ := step_progress ρ hstat hp hl
+    have hwg := step_wgt ρ hstat hp.x hs
+    rw [loop_succ_some ρ a n st st' iters cnt r hs]
+    have hb : bump a r cnt ≤ cnt + 1 := by unfold bump; split <;> omega
+    rw [stopCheck_nocaps a st' iters (bump a r cnt) hcont
+      (by rcases hlen with h | h; exact Or.inl h; right; omega)
+      (by rcases hit with h | h; exact Or.inl h; right; omega)]
+    have hiff := noNormal_iff_act hp'.x.wf hp'.x.nm.pk
+    cases hnn : st'.sq.noNormalPackets with
+    | true =>
+      rw [if_pos rfl]
+      refine ⟨rfl, st', rfl, hiff.1 hnn, ?_⟩
+      show [r].length + wgt st'.sq = wgt st.sq
+      simp only [List.length_cons, List.length_nil]; omega
+    | false =>
+      rw [if_neg (by simp)]
+      have hact' : 0 < act st'.sq := by
+        rcases Nat.eq_zero_or_pos (act st'.sq) with h0 | h0
+        · rw [hiff.2 h0] at hnn; cases hnn
+        · exact h0
+      obtain ⟨i1, stf, i2, i3, i4⟩ := ih st' (iters + 1) (bump a r cnt) hp' hact' (by omega)
+        (by rcases hit with h | h; exact Or.inl h; right; omega)
+        (by rcases hlen with h | h; exact Or.inl h; right; omega)
+      refine ⟨i1, stf, i2, i3, ?_⟩
+      show (r :: (loop ρ a n st' (iters + 1) (bump a r cnt)).stream).length + wgt stf.sq = wgt st.sq
+      simp only [List.length_cons]; omega
+
+end
+
 end Mb.Sim
